@@ -178,20 +178,33 @@ Section RangeK.
       + left. rewrite Epm. discriminate.
   Qed.
 
-  (* a table whose scores are within [-K, K] *)
-  Definition TK (t : table) : Prop := TableAll (fun _ e => RK (e_score e)) t.
+  (* a table whose scores are within [-KT, KT]; mate scores are stored counted from the storing node and read
+     recounted from the root (score_to_table / score_from_table), so the bound of the table may differ from
+     the bound of the values by the ply of the reader (>= 1): the two facts needed are hypotheses here *)
+  Variable KT : Z.
+  Hypothesis Hread : forall e real, 1 <= real <= 255 -> - KT <= e <= KT -> RK (score_from_table e real).
+  Hypothesis Hstore : forall s real, 0 <= real <= 255 -> RK s -> - KT <= score_to_table s real <= KT.
+  Definition TK (t : table) : Prop := TableAll (fun _ e => - KT <= e_score e <= KT) t.
+
+  Lemma node_entry_hit g st real rem a b sp :
+    TK (s_tbl st) -> 1 <= real <= 255 -> probe (node_entry g st real) rem a b = Some sp -> RK sp.
+  Proof.
+    intros HT Hr Ep. apply probe_some in Ep. destruct Ep as (en & Ef & ->).
+    apply node_entry_some in Ef. destruct Ef as (en0 & Ef & ->). cbn [entry_from_table e_score].
+    apply Hread; [exact Hr | exact (HT _ _ Ef)].
+  Qed.
 
   (* a node with remaining depth 0 or 1 (quiescence / depth 1): completes, stores nothing *)
   Lemma node_low_K rem g st real a b :
-    (rem <= 1)%nat -> GB g -> NS st -> TK (s_tbl st) -> WK a b -> 0 <= real <= 255 ->
+    (rem <= 1)%nat -> GB g -> NS st -> TK (s_tbl st) -> WK a b -> 1 <= real <= 255 ->
     exists s, node rem g st real a b = (Done s, poll st) /\ RK s.
   Proof.
     intros Hrem Hg Hns HT Hw Hr. rewrite node_unfold.
     destruct (NS_poll st Hns) as (_ & Erun & Etbl).
-    rewrite Erun. cbn [negb]. unfold node_body. rewrite Etbl.
-    destruct (probe (tfind (s_tbl st) (g_hash g)) (Z.of_nat rem) a b) as [sp|] eqn:Ep.
-    - apply probe_some in Ep. destruct Ep as (en & Ef & ->). exists (e_score en).
-      split; [reflexivity | exact (HT _ _ Ef)].
+    rewrite Erun. cbn [negb]. unfold node_body.
+    assert (HTp : TK (s_tbl (poll st))) by (rewrite Etbl; exact HT).
+    destruct (probe (node_entry g (poll st) real) (Z.of_nat rem) a b) as [sp|] eqn:Ep.
+    - exists sp. split; [reflexivity | exact (node_entry_hit _ _ _ _ _ _ _ HTp Hr Ep)].
     - destruct rem as [|[|r]]; [| |lia].
       + pose proof (good_quiescence_total g a b real (proj1 Hg)) as Ht.
         destruct (quiescence QFUEL g a b real) as [s|] eqn:Eq; [|congruence].
@@ -200,7 +213,7 @@ Section RangeK.
       + pose proof (good_depth1_total g a b real (proj1 Hg)) as Ht.
         destruct (depth1 g a b real) as [s|] eqn:Eq; [|congruence].
         exists s. split; [reflexivity|].
-        apply (depth1_rangeK g a b real s); assumption.
+        apply (depth1_rangeK g a b real s); try assumption. lia.
   Qed.
 
   (* ---- the node with remaining depth 2: its children are depth-1 searches ---- *)
@@ -284,18 +297,20 @@ Section RangeK.
 
   (* the node with remaining depth 2 (a child of the root in iteration 3) *)
   Lemma node2_K c st real a b :
-    GB c -> NS st -> TK (s_tbl st) -> WK a b -> 0 <= real <= 254 ->
+    GB c -> NS st -> TK (s_tbl st) -> WK a b -> 1 <= real <= 254 ->
     (checked_moves c = [] -> RK (no_move_score c MATE_OFFSET_NODE real)) ->
     exists s st', node 2 c st real a b = (Done s, st') /\ RK s /\ NS st' /\
       (s_tbl st' = s_tbl st \/
-       exists ne, RK (e_score ne) /\ s_tbl st' = store_node (s_tbl st) (g_hash c) ne).
+       exists ne, - KT <= e_score ne <= KT /\ s_tbl st' = store_node (s_tbl st) (g_hash c) ne).
   Proof.
     intros Hc Hns HT Hw Hr Hdead. rewrite node_unfold.
     destruct (NS_poll st Hns) as (Hnsp & Erun & Etbl).
-    rewrite Erun. cbn [negb]. unfold node_body. rewrite Etbl.
-    destruct (probe (tfind (s_tbl st) (g_hash c)) (Z.of_nat 2) a b) as [sp|] eqn:Ep.
-    - apply probe_some in Ep. destruct Ep as (en & Ef & ->). exists (e_score en), (poll st).
-      split; [reflexivity|]. split; [exact (HT _ _ Ef)|]. split; [exact Hnsp|]. left. exact Etbl.
+    rewrite Erun. cbn [negb]. unfold node_body.
+    assert (HTp : TK (s_tbl (poll st))) by (rewrite Etbl; exact HT).
+    destruct (probe (node_entry c (poll st) real) (Z.of_nat 2) a b) as [sp|] eqn:Ep.
+    - exists sp, (poll st).
+      split; [reflexivity|]. split; [exact (node_entry_hit c (poll st) real _ _ _ _ HTp ltac:(lia) Ep)|].
+      split; [exact Hnsp|]. left. exact Etbl.
     - cbv iota. rewrite node_deep_eq. destruct (checked_moves c) as [|m0 ms0] eqn:Ecm.
       + exists (no_move_score c MATE_OFFSET_NODE real), (poll st).
         split; [reflexivity|]. split; [now apply Hdead|]. split; [exact Hnsp|]. left. exact Etbl.
@@ -303,7 +318,7 @@ Section RangeK.
         { intros x Hx. unfold node_sorted, node_sorted_of in Hx. apply sort_moves_in in Hx. exact Hx. }
         assert (Hne : node_sorted c (poll st) real <> []).
         { intros E. unfold node_sorted, node_sorted_of in E. apply sort_moves_nil in E. congruence. }
-        destruct (node2_loop c Hc real b Hr (proj2 Hw) (s_tbl st) HT (Z.of_nat 2)
+        destruct (node2_loop c Hc real b ltac:(lia) (proj2 Hw) (s_tbl st) HT (Z.of_nat 2)
                     (node_sorted c (poll st) real) 0 (mkL a None SCORE_MIN (poll st)) Hincl)
           as (l' & El & [Hnsl Etl] & (Hal & Hbl & _)).
         { split; [exact Hnsp | exact Etbl]. }
@@ -311,7 +326,7 @@ Section RangeK.
         rewrite El. cbn [node_finish].
         eexists. eexists. split; [reflexivity|]. split; [exact Hal|]. split; [exact Hnsl|].
         right. eexists. split; [|cbn [with_tbl s_tbl]; rewrite Etl; reflexivity].
-        cbn [e_score]. exact Hbl.
+        cbn [e_score]. apply Hstore; [lia | exact Hbl].
   Qed.
 End RangeK.
 
@@ -323,6 +338,38 @@ Lemma T_ok : 30768 <= T_BOUND /\ T_BOUND <= 32767.
 Proof. unfold T_BOUND. lia. Qed.
 Lemma S_ok : 30768 <= S_STAR /\ S_STAR <= 32767.
 Proof. unfold S_STAR. lia. Qed.
+
+(* the two bounds used below: values and table within T_BOUND (no mate score around: nothing is recounted);
+   values within S_STAR with a table within S_STAR + 1 (a mate score moves by the ply of the reader, >= 1) *)
+Definition ST_BOUND : Z := 32668.
+
+Lemma read_T e real : 1 <= real <= 255 -> - T_BOUND <= e <= T_BOUND -> RK T_BOUND (score_from_table e real).
+Proof.
+  intros Hr He. unfold score_from_table, TABLE_MATE_MARGIN.
+  destruct (SCORE_MAX - 1000 <? e) eqn:E1; [apply Z.ltb_lt in E1; rk|].
+  destruct (e <? SCORE_MIN + 1000) eqn:E2; [apply Z.ltb_lt in E2; rk | exact He].
+Qed.
+
+Lemma store_T s real : 0 <= real <= 255 -> RK T_BOUND s -> - T_BOUND <= score_to_table s real <= T_BOUND.
+Proof.
+  intros Hr He. unfold score_to_table, TABLE_MATE_MARGIN.
+  destruct (SCORE_MAX - 1000 <? s) eqn:E1; [apply Z.ltb_lt in E1; rk|].
+  destruct (s <? SCORE_MIN + 1000) eqn:E2; [apply Z.ltb_lt in E2; rk | exact He].
+Qed.
+
+Lemma read_S e real : 1 <= real <= 255 -> - ST_BOUND <= e <= ST_BOUND -> RK S_STAR (score_from_table e real).
+Proof.
+  intros Hr He. unfold score_from_table, TABLE_MATE_MARGIN, ST_BOUND in *.
+  destruct (SCORE_MAX - 1000 <? e) eqn:E1; [apply Z.ltb_lt in E1; rk|]. apply Z.ltb_ge in E1.
+  destruct (e <? SCORE_MIN + 1000) eqn:E2; [apply Z.ltb_lt in E2; rk | apply Z.ltb_ge in E2; rk].
+Qed.
+
+Lemma store_S s real : 0 <= real <= 255 -> RK S_STAR s -> - ST_BOUND <= score_to_table s real <= ST_BOUND.
+Proof.
+  intros Hr He. unfold score_to_table, TABLE_MATE_MARGIN, ST_BOUND in *.
+  destruct (SCORE_MAX - 1000 <? s) eqn:E1; [apply Z.ltb_lt in E1; rk|]. apply Z.ltb_ge in E1.
+  destruct (s <? SCORE_MIN + 1000) eqn:E2; [apply Z.ltb_lt in E2; rk | apply Z.ltb_ge in E2; rk].
+Qed.
 
 (* the refined range of the depth-1 and quiescence searches: strictly inside (-32667, 32667) *)
 Corollary quiescence_tight fuel g a b real s :
@@ -357,7 +404,7 @@ Section Root.
               NS (poll st) /\ s_tbl (poll st) = tb.
   Proof.
     intros Hrem HT Hm Hns Et Hw.
-    destruct (node_low_K T_BOUND (proj1 T_ok) rem' (push g m) st 1 a b) as (s & E & Hs); try assumption.
+    destruct (node_low_K T_BOUND (proj1 T_ok) T_BOUND read_T rem' (push g m) st 1 a b) as (s & E & Hs); try assumption.
     - now apply GB_push_checked.
     - rewrite Et. exact HT.
     - lia.
@@ -502,19 +549,22 @@ Section Root.
     node 2 (push g m) st 1 a b = (Done (- S_STAR), poll st).
   Proof.
     intros (Hin & Hd & Hc) Hns Hf. rewrite node_unfold. destruct (NS_poll st Hns) as (_ & Er & Et).
-    rewrite Er. cbn [negb]. unfold node_body. rewrite Et, Hf. cbn [probe]. cbv iota.
+    rewrite Er. cbn [negb]. unfold node_body, node_entry. rewrite Et, Hf. cbn [option_map probe]. cbv iota.
     rewrite node_deep_eq, Hd. rewrite (no_move_score_check _ _ _ Hc). reflexivity.
   Qed.
 
   (* any other root move *)
-  Lemma other_child K m st a b :
-    30768 <= K <= 32767 -> In m (checked_moves g) -> ~ mates g m ->
+  Lemma other_child K KT m st a b :
+    30768 <= K <= 32767 ->
+    (forall e real, 1 <= real <= 255 -> - KT <= e <= KT -> RK K (score_from_table e real)) ->
+    (forall s real, 0 <= real <= 255 -> RK K s -> - KT <= score_to_table s real <= KT) ->
+    In m (checked_moves g) -> ~ mates g m ->
     (checked_moves (push g m) = [] -> RK K (no_move_score (push g m) MATE_OFFSET_NODE 1)) ->
-    NS st -> TH K (s_tbl st) -> WK K a b ->
-    exists s st', node 2 (push g m) st 1 a b = (Done s, st') /\ RK K s /\ NS st' /\ TH K (s_tbl st').
+    NS st -> TH KT (s_tbl st) -> WK K a b ->
+    exists s st', node 2 (push g m) st 1 a b = (Done s, st') /\ RK K s /\ NS st' /\ TH KT (s_tbl st').
   Proof.
-    intros HK Hm Hnm Hdead Hns HT Hw.
-    destruct (node2_K K (proj1 HK) (proj2 HK) (push g m) st 1 a b) as (s & st' & E & Hs & Hns' & Htb);
+    intros HK Hrd Hst Hm Hnm Hdead Hns HT Hw.
+    destruct (node2_K K (proj1 HK) (proj2 HK) KT Hrd Hst (push g m) st 1 a b) as (s & st' & E & Hs & Hns' & Htb);
       try assumption.
     - now apply GB_push_checked.
     - now apply TH_TK.
@@ -529,7 +579,7 @@ Section Root.
   Definition PhA1 (r : rstate) : Prop :=
     TH T_BOUND (s_tbl (r_st r)) /\ RK T_BOUND (r_bscore r) /\ r_best r <> None.
   Definition PhB (r : rstate) : Prop :=
-    TH S_STAR (s_tbl (r_st r)) /\ r_bscore r = S_STAR /\ exists m, r_best r = Some m /\ mates g m.
+    TH ST_BOUND (s_tbl (r_st r)) /\ r_bscore r = S_STAR /\ exists m, r_best r = Some m /\ mates g m.
 
   (* a non-mating move before any mating move was searched *)
   Lemma step_other_T m index r :
@@ -541,25 +591,25 @@ Section Root.
     intros Hm Hnm Hdead Hns H. unfold root_step.
     assert (Hd : checked_moves (push g m) = [] -> RK T_BOUND (no_move_score (push g m) MATE_OFFSET_NODE 1)).
     { intros E. rewrite (no_move_score_nocheck _ _ _ (Hdead E)). rk. }
-    pose proof (other_child T_BOUND m) as OC.
+    pose proof (fun st a b => other_child T_BOUND T_BOUND m st a b T_ok read_T store_T) as OC.
     destruct H as [[-> (HT & Hs)] | (HT & Hs & Hbm)].
     - change (0 <=? ROOT_FULL_WINDOW_LAST_INDEX) with true. cbv iota.
-      destruct (OC (r_st r) (SCORE_MIN + 1) (- r_bscore r) T_ok Hm Hnm Hd Hns HT ltac:(rk))
+      destruct (OC (r_st r) (SCORE_MIN + 1) (- r_bscore r) Hm Hnm Hd Hns HT ltac:(rk))
         as (s & st1 & E & Hr & Hns1 & HT1).
       rewrite E, Hs.
       assert (El : (SCORE_MIN + 1 <? - s) = true) by (apply Z.ltb_lt; rk). rewrite El.
       eexists. split; [reflexivity|]. split; [exact Hns1|]. split; [exact HT1|].
       cbn [r_bscore r_best]. split; [rk | discriminate].
     - destruct (index <=? ROOT_FULL_WINDOW_LAST_INDEX).
-      + destruct (OC (r_st r) (SCORE_MIN + 1) (- r_bscore r) T_ok Hm Hnm Hd Hns HT ltac:(rk))
+      + destruct (OC (r_st r) (SCORE_MIN + 1) (- r_bscore r) Hm Hnm Hd Hns HT ltac:(rk))
           as (s & st1 & E & Hr & Hns1 & HT1).
         rewrite E.
         destruct (r_bscore r <? - s); (eexists; split; [reflexivity|]; split; [exact Hns1|]; split; [exact HT1|]);
           cbn [r_bscore r_best]; (split; [rk | first [discriminate | assumption]]).
-      + destruct (OC (r_st r) (- r_bscore r - 1) (- r_bscore r) T_ok Hm Hnm Hd Hns HT ltac:(rk))
+      + destruct (OC (r_st r) (- r_bscore r - 1) (- r_bscore r) Hm Hnm Hd Hns HT ltac:(rk))
           as (s & st1 & E & Hr & Hns1 & HT1).
         rewrite E. destruct (r_bscore r <? - s).
-        * destruct (OC st1 (SCORE_MIN + 1) (- - s) T_ok Hm Hnm Hd Hns1 HT1 ltac:(rk))
+        * destruct (OC st1 (SCORE_MIN + 1) (- - s) Hm Hnm Hd Hns1 HT1 ltac:(rk))
             as (s2 & st2 & E2 & Hr2 & Hns2 & HT2).
           rewrite E2. eexists. split; [reflexivity|]. split; [exact Hns2|]. split; [exact HT2|].
           cbn [r_bscore r_best]. split; [rk | discriminate].
@@ -575,15 +625,15 @@ Section Root.
     intros Hm Hnm Hns (HT & Hs & Hbm). unfold root_step.
     assert (Hd : checked_moves (push g m) = [] -> RK S_STAR (no_move_score (push g m) MATE_OFFSET_NODE 1)).
     { intros _. unfold no_move_score. destruct (king_exists _ _ && _); rk. }
-    pose proof (other_child S_STAR m) as OC.
+    pose proof (fun st a b => other_child S_STAR ST_BOUND m st a b S_ok read_S store_S) as OC.
     destruct (index <=? ROOT_FULL_WINDOW_LAST_INDEX).
-    - destruct (OC (r_st r) (SCORE_MIN + 1) (- r_bscore r) S_ok Hm Hnm Hd Hns HT ltac:(rk))
+    - destruct (OC (r_st r) (SCORE_MIN + 1) (- r_bscore r) Hm Hnm Hd Hns HT ltac:(rk))
         as (s & st1 & E & Hr & Hns1 & HT1).
       rewrite E.
       assert (El : (r_bscore r <? - s) = false) by (apply Z.ltb_ge; rk). rewrite El.
       eexists. split; [reflexivity|]. split; [exact Hns1|]. split; [exact HT1|].
       cbn [r_bscore r_best]. split; assumption.
-    - destruct (OC (r_st r) (- r_bscore r - 1) (- r_bscore r) S_ok Hm Hnm Hd Hns HT ltac:(rk))
+    - destruct (OC (r_st r) (- r_bscore r - 1) (- r_bscore r) Hm Hnm Hd Hns HT ltac:(rk))
         as (s & st1 & E & Hr & Hns1 & HT1).
       rewrite E.
       assert (El : (r_bscore r <? - s) = false) by (apply Z.ltb_ge; rk). rewrite El.
@@ -593,7 +643,7 @@ Section Root.
 
   (* a mating move: recorded with S_STAR unless a mating move is recorded already *)
   Lemma step_mate m index r :
-    mates g m -> NS (r_st r) -> TH S_STAR (s_tbl (r_st r)) -> r_bscore r < S_STAR \/ PhB r ->
+    mates g m -> NS (r_st r) -> TH ST_BOUND (s_tbl (r_st r)) -> r_bscore r < S_STAR \/ PhB r ->
     exists r', root_step g 2 m index r = Done r' /\ NS (r_st r') /\ PhB r'.
   Proof.
     intros Hm Hns HT H. unfold root_step.
@@ -605,8 +655,8 @@ Section Root.
     { intros a b. apply mate_child; [exact Hm | exact Hns1 |]. rewrite Et1. exact (TH_miss _ _ _ HT Hm). }
     rewrite !E1. cbv beta iota. rewrite E2. cbv beta iota.
     change (- - S_STAR) with S_STAR.
-    assert (HT1 : TH S_STAR (s_tbl (poll (r_st r)))) by (rewrite Et1; exact HT).
-    assert (HT2 : TH S_STAR (s_tbl (poll (poll (r_st r))))) by (rewrite Et2; exact HT1).
+    assert (HT1 : TH ST_BOUND (s_tbl (poll (r_st r)))) by (rewrite Et1; exact HT).
+    assert (HT2 : TH ST_BOUND (s_tbl (poll (poll (r_st r))))) by (rewrite Et2; exact HT1).
     destruct (r_bscore r <? S_STAR) eqn:El.
     - destruct (index <=? ROOT_FULL_WINDOW_LAST_INDEX);
         (eexists; split; [reflexivity|]); cbn [r_st];
@@ -628,7 +678,7 @@ Section Root.
     destruct (mates_dec g m Hm) as [Hmate | [Hnm Hdead]].
     - destruct (step_mate m index r Hmate Hns) as (r' & E & Hns' & HB).
       + destruct H as [(_ & HT & _) | [(HT & _) | (HT & _)]];
-          [apply (TH_mono T_BOUND); [rk | exact HT] | apply (TH_mono T_BOUND); [rk | exact HT] | exact HT].
+          [apply (TH_mono T_BOUND); [unfold ST_BOUND; rk | exact HT] | apply (TH_mono T_BOUND); [unfold ST_BOUND; rk | exact HT] | exact HT].
       + destruct H as [(_ & _ & Hs) | [(_ & Hs & _) | HB]]; [left; rk | left; rk | right; exact HB].
       + exists r'. split; [exact E|]. split; [exact Hns'|]. split; [right; exact HB|]. split; intros _; exact HB.
     - destruct H as [HA | [HA | HB]].
